@@ -47,6 +47,20 @@ theorem C14_apply_normal (L R : List Line) (n : Nat) :
   ⟨C14a.apply_normal_new L R (editScript_Valid L R) (C11.editScript_canonical L R),
    C14a.apply_normal_pipeline L R n (editScript_Valid L R) (C11.editScript_canonical L R)⟩
 
+/-- **C14, round trip ∘ pipeline (normal format)** — for `New(L, R)` with newline-free lines, no other
+hypothesis: `Read(Normal(New(L, R)))` returns chunks that are `AllOK` for `L`, `R` and patch `L`
+into `R`; for the pipeline the same under "the unified chunks hold newline-free lines". -/
+theorem C14_normal_readback (L R : List Line) (n : Nat)
+    (hL : ∀ l ∈ L, MdsVerif.Proofs.MdiffFmt.NoNl l) (hR : ∀ l ∈ R, MdsVerif.Proofs.MdiffFmt.NoNl l) :
+    (∃ p, read (readLines (render (normal (Model.Mdiff.new L R).chunks))) = some p ∧
+      AllOK p.chunks L R ∧ patch L p.chunks = R) ∧
+    ∃ d1 d2, (Model.Mdiff.new L R).addContext? n = some d1 ∧ d1.unify? = .ok d2 ∧
+      ((∀ c ∈ d2.chunks, MdsVerif.Proofs.MdiffFmt.EditsNoNl c.edits) →
+        ∃ p, read (readLines (render (normal d2.chunks))) = some p ∧
+          AllOK p.chunks L R ∧ patch L p.chunks = R) :=
+  ⟨C14a.normal_readback_new L R (editScript_Valid L R) (C11.editScript_canonical L R) hL hR,
+   C14a.normal_readback_pipeline L R n (editScript_Valid L R) (C11.editScript_canonical L R)⟩
+
 /-- **C14, context format applied by the POSIX/GNU rules** — no hypotheses. -/
 theorem C14_apply_context (L R : List Line) (n : Nat) (fi : Option FileInfo) :
     DiffApply.applyContext (context (Model.Mdiff.new L R).chunks fi) L = some R ∧
